@@ -429,12 +429,31 @@ package s3db
 //@   ensures imp(err != nil, result0 == nil)
 //@   ensures imp(inMemoryS3 != nil, inMemoryS3.Client != nil)
 
-// ASSUMED (the schema comes out of the combinator parser, which is outside the verified subset)
+// convertSchema translates a parsed columns specification (the schema itself
+// comes out of the combinator parser, outside the verified subset: parseSchema's
+// result is arbitrary here) into the table's layout: the key column is the
+// declared PRIMARY KEY column, composite keys / duplicated names / a key without
+// a column / UNIQUE on a non-key column / DEFAULT are errors, the index maps
+// follow the column order.
+//@ ufunc colPos(schema, name) int witness
 //@ func convertSchema
-//@   trusted
 //@   requires t != nil
 //@   modifies t.usesRowID, t.KeyCol, t.SchemaString, t.schema, t.ColumnIndexByName, t.ColumnNameByIndex
-//@   ensures imp(result == nil, t.SchemaString != "")
+//@   ensures imp(result == nil, t.SchemaString != "" && t.schema != nil)
+//@   ensures at-most-one-key-column: imp(result == nil, len(t.schema.PrimaryKey) <= 1 && t.usesRowID == (len(t.schema.PrimaryKey) == 0))
+//@   ensures key-is-the-declared-column: imp(result == nil && len(t.schema.PrimaryKey) == 1, 0 <= t.KeyCol && t.KeyCol < len(t.schema.Columns) && t.schema.Columns[t.KeyCol].Name == t.schema.PrimaryKey[0])
+//@   ensures names-distinct: forall i int, j int :: imp(result == nil && 0 <= i && i < j && j < len(t.schema.Columns), t.schema.Columns[i].Name != t.schema.Columns[j].Name)
+//@   ensures no-default: forall i int :: imp(result == nil && 0 <= i && i < len(t.schema.Columns), t.schema.Columns[i].Default == nil)
+//@   loop 1 invariant -1 <= rangeindex && rangeindex < len(schema.Columns) && fresh(columnMap)
+//@   loop 1 invariant seen-are-columns: forall n string :: imp(has(columnMap, n), 0 <= colPos(schema, n) && colPos(schema, n) <= rangeindex && schema.Columns[colPos(schema, n)].Name == n)
+//@   loop 1 invariant columns-are-seen: forall j int :: imp(0 <= j && j <= rangeindex, has(columnMap, schema.Columns[j].Name))
+//@   loop 1 invariant distinct-so-far: forall i int, j int :: imp(0 <= i && i < j && j <= rangeindex, schema.Columns[i].Name != schema.Columns[j].Name)
+//@   loop 2 invariant -1 <= rangeindex && rangeindex < len(schema.Columns)
+//@   loop 2 invariant key-found: forall j int :: imp(0 <= j && j <= rangeindex && schema.Columns[j].Name == keyColName, t.KeyCol == j)
+//@   loop 2 invariant no-default-so-far: forall j int :: imp(0 <= j && j <= rangeindex, schema.Columns[j].Default == nil)
+//@   loop 3 invariant -1 <= rangeindex && rangeindex < len(t.schema.Columns) && t.schema == schema && fresh(t.ColumnIndexByName) && fresh(t.ColumnNameByIndex) && t.ColumnIndexByName != t.ColumnNameByIndex
+//@   loop 3 invariant maps-so-far: forall j int :: imp(0 <= j && j <= rangeindex, has(t.ColumnNameByIndex, j) && t.ColumnNameByIndex[j] == schema.Columns[j].Name && has(t.ColumnIndexByName, schema.Columns[j].Name) && t.ColumnIndexByName[schema.Columns[j].Name] == j)
+//@   ensures index-maps-follow-the-order: forall i int :: imp(result == nil && 0 <= i && i < len(t.schema.Columns), has(t.ColumnNameByIndex, i) && t.ColumnNameByIndex[i] == t.schema.Columns[i].Name && has(t.ColumnIndexByName, t.schema.Columns[i].Name) && t.ColumnIndexByName[t.schema.Columns[i].Name] == i)
 
 //@ spec knownOption(k string) bool = k == "columns" || k == "entries_per_node" || k == "node_cache_entries" || k == "readonly" || k == "s3_bucket" || k == "s3_endpoint" || k == "s3_prefix"
 
@@ -448,6 +467,7 @@ package s3db
 //@   ensures registered: imp(err == nil, result0 != nil && fresh(result0) && result0.Name == old(args[0]) && has(tables, old(args[0])) && tables[old(args[0])] == result0 && !old(has(tables, args[0])))
 //@   ensures others-kept: forall k string :: imp(err == nil && k != old(args[0]), has(tables, k) == old(has(tables, k)) && tables[k] == old(tables[k]))
 //@   ensures error-nil-result: imp(err != nil, result0 == nil)
+//@   ensures opened: imp(err == nil, result0.Tree != nil && result0.Tree.Root != nil && result0.SchemaString != "")
 //@   loop 1 modifies contents(seen), table.S3Options, table.usesRowID, table.KeyCol, table.SchemaString, table.schema, table.ColumnIndexByName, table.ColumnNameByIndex
 //@   ensures entries-per-node: forall j int :: imp(err == nil && 0 <= j && j < len(args) - 1 && splitKey(old(args[1:][j])) == "entries_per_node", result0.S3Options.EntriesPerNode == int(parseInt(splitVal(old(args[1:][j])), 0, 32)))
 //@   ensures node-cache-entries: forall j int :: imp(err == nil && 0 <= j && j < len(args) - 1 && splitKey(old(args[1:][j])) == "node_cache_entries", result0.S3Options.NodeCacheEntries == int(parseInt(splitVal(old(args[1:][j])), 0, 32)))
@@ -843,3 +863,34 @@ package s3db
 //@   ensures-local reported-errors-are-errors: imp(len(errs) > 0, err != nil && result0 == nil)
 //@   ensures-local trailing-input-is-an-error: imp(err == nil, p.Remaining == "" && result0 == addr(schema))
 //@   ensures failed-or-schema: (err == nil) == (result0 != nil)
+//@   ensures result-fresh: imp(err == nil, fresh(result0))
+// colPos(schema, name) is a ghost choice function, defined here for the fresh
+// schema object: an index of a column with that name, when there is one.
+//@   ensures-assumed forall j int :: imp(err == nil && 0 <= j && j < len(result0.Columns), 0 <= colPos(result0, result0.Columns[j].Name) && colPos(result0, result0.Columns[j].Name) <= j && result0.Columns[colPos(result0, result0.Columns[j].Name)].Name == result0.Columns[j].Name)
+
+// Open: a new cursor on this table, before the first row (Filter positions it).
+//@ func (*VirtualTable).Open
+//@   requires c != nil
+//@   modifies nothing
+//@   ensures err == nil && result0 != nil && fresh(result0) && result0.t == c && !result0.eof && result0.cursor == nil && result0.currentRow == nil && result0.currentKey == nil
+//@ func (*Cursor).Eof
+//@   requires c != nil
+//@   modifies nothing
+//@   ensures result == c.eof
+//@ func (*Cursor).Close
+//@   modifies nothing
+//@   ensures result == nil
+//@ func (*Cursor).Rowid
+//@   modifies nothing
+//@   ensures err != nil
+
+// Disconnect (xDisconnect / xDestroy, and the clean-up of a rejected CREATE):
+// the table leaves the registry, every other table stays.
+//@ func KV.Closer
+//@   trusted
+//@   modifies nothing
+//@ func (*VirtualTable).Disconnect
+//@   requires c != nil && c.Tree != nil && c.Tree.Root != nil && has(tables, c.Name)
+//@   modifies c.Tree, contents(tables)
+//@   ensures unregistered: result == nil && !has(tables, c.Name) && c.Tree == nil
+//@   ensures others-kept: forall k string :: imp(k != c.Name, has(tables, k) == old(has(tables, k)) && tables[k] == old(tables[k]))
